@@ -786,8 +786,14 @@ func (m *Manager) computeMedianFee() types.Currency {
 	return *m.txpool.medianFee
 }
 
-func (m *Manager) computeParentMap() map[types.Hash256]int {
+// computeParentMap maps the elements created by pool transactions to the index
+// of the creating transaction in m.txpool.txns (v2 == false) or
+// m.txpool.v2txns (v2 == true); the two slices are indexed independently.
+func (m *Manager) computeParentMap(v2 bool) map[types.Hash256]int {
 	parentMap := make(map[types.Hash256]int)
+	if v2 {
+		return m.computeV2ParentMap(parentMap)
+	}
 	for index, txn := range m.txpool.txns {
 		for i := range txn.SiacoinOutputs {
 			parentMap[types.Hash256(txn.SiacoinOutputID(i))] = index
@@ -802,6 +808,10 @@ func (m *Manager) computeParentMap() map[types.Hash256]int {
 			parentMap[types.Hash256(txn.FileContractID(i))] = index
 		}
 	}
+	return parentMap
+}
+
+func (m *Manager) computeV2ParentMap(parentMap map[types.Hash256]int) map[types.Hash256]int {
 	for index, txn := range m.txpool.v2txns {
 		txid := txn.ID()
 		for i := range txn.SiacoinOutputs {
@@ -1127,7 +1137,7 @@ func (m *Manager) UnconfirmedParents(txn types.Transaction) []types.Transaction 
 	defer m.mu.Unlock()
 	m.revalidatePool()
 
-	parentMap := m.computeParentMap()
+	parentMap := m.computeParentMap(false)
 	var parents []types.Transaction
 	seen := make(map[int]bool)
 	check := func(id types.Hash256) {
@@ -1180,7 +1190,7 @@ func (m *Manager) V2TransactionSet(basis types.ChainIndex, txn types.V2Transacti
 	m.revalidatePool()
 
 	// get the transaction's parents
-	parentMap := m.computeParentMap()
+	parentMap := m.computeParentMap(true)
 	var parents []types.V2Transaction
 	seen := make(map[int]bool)
 	check := func(id types.Hash256) {
